@@ -310,6 +310,11 @@ def run(tier, seed, which="C07"):
     # whole progressive alignments (profile x sequence, profile x profile merges) walked through GKernel / Profile
     import prog
     prog.run(V, wd, random.Random(seed * 7919 + 13), tier)
+    # exhaustive small-scope conformance: every pair (triple) of short sequences over two (three) letters through the real
+    # code, every split re-derived from the model
+    import smallscope
+    smallscope.pairs(V, wd, tier, random.Random(seed))
+    smallscope.triples(V, wd, tier, random.Random(seed))
     for fu in mcfut:
         (mod, cfg, expect, w), res = fu.result()
         if expect:
